@@ -244,7 +244,7 @@ func c15Base(r *rand.Rand, i int) (*lib.ProfileDoc, *lib.Graph) {
 				kinds = append(kinds, k)
 			}
 		}
-		w, root := lib.NewSiblingWorld(r, 2000, 6+r.Intn(9), r.Intn(len(kinds)), kinds)
+		w, root := lib.NewSiblingWorld(r, 2000, 6+r.Intn(9), r.Intn(len(kinds)), kinds, r.Intn(3) == 0)
 		for _, nd := range w.G.Nodes {
 			nn := g.AddNode(nd.ID, nd.Types...)
 			nn.Props = nd.Props
@@ -270,6 +270,16 @@ func c15Base(r *rand.Rand, i int) (*lib.ProfileDoc, *lib.Graph) {
 			regoOp(`$result = (object.get($node, "http://ex.org/other", null) != null)`),
 			regoOp(`$result = (object.get($node, "@id", null) != null)`)}}})
 	prof.Info = append(prof.Info, "rego-operands")
+	// embedded Rego operands under `or`, the first of which sets its own message; a property whose local name holds
+	// the prefix name followed by a dot (a compact IRI is cut at its first dot, whatever the prefix is called)
+	prof.Validations = append(prof.Validations, lib.Validation{Name: "rego-or-own-message", TargetClass: "ex.Adv", Message: "rego or",
+		Body: lib.OrE{Items: []lib.Expr{
+			regoOp("$message = \"text set by the code\"\n$result = (object.get($node, \"http://ex.org/word\", null) == \"no such word\")"),
+			regoOp(`$result = (object.get($node, "http://ex.org/other", null) != null)`),
+			lib.PC1("ex.word", lib.CScalar("pattern", lib.Str("^zzz")))}}},
+		lib.Validation{Name: "dotted-local-name", TargetClass: "ex.Adv", Message: "index page", Body: lib.PC1("ex.index.html | ex.apex.x^", lib.CScalar("minCount", lib.Int(1)))})
+	prof.Warning = append(prof.Warning, "rego-or-own-message", "dotted-local-name")
+	adv.Add(lib.EX+"index.html", lib.StrV("page"))
 	// custom domain property reached through the api-extension namespace
 	for k := 0; k < 2; k++ {
 		c := g.AddNode(fmt.Sprintf("%scust%d", lib.EX, k), lib.EX+"Cust")
